@@ -44,6 +44,18 @@ def _san(e, n=60):
     return re.sub(r'[0-9a-f]{4,}|\d+', 'N', str(e))[:n]
 
 
+def decode_payload(x):
+    """scenario JSON -> python value ({"$dt": iso} -> datetime)"""
+    import datetime as _dt
+    if isinstance(x, dict):
+        if set(x) == {'$dt'}:
+            return _dt.datetime.fromisoformat(x['$dt'])
+        return {k: decode_payload(v) for k, v in x.items()}
+    if isinstance(x, list):
+        return [decode_payload(v) for v in x]
+    return x
+
+
 class RecordingEvent(asyncio.Event):
     """The event's completion signal, recording the instant it is first set."""
 
@@ -167,6 +179,8 @@ class World:
         self.xn = 0
         self.online: list[tuple] = []  # violations detected online
         self.nprogress = 0
+        self.payloads: dict[str, tuple] = {}
+        self.values: dict[str, int] = {}
 
     # -- trace ---------------------------------------------------------------------
     def rec(self, kind, *fields):
@@ -184,10 +198,13 @@ class World:
         kw = dict(k=self.nev, depth=depth, v=opts.get('v', 0), event_timeout=opts.get('timeout', self.sc.get('event_timeout', 300.0)),
                   event_id=f'00000000-0000-7000-8000-{self.nev:012d}')
         if 'payload' in opts:
-            kw['payload'] = opts['payload']
+            kw['payload'] = decode_payload(opts['payload'])
         if opts.get('extra'):
-            kw.update(opts['extra'])
+            kw.update({k: decode_payload(v) for k, v in opts['extra'].items()})
         ev = EVT[typ](**kw)
+        self.values[name] = kw['v']
+        if 'payload' in opts or opts.get('extra'):
+            self.payloads[name] = (opts.get('payload'), dict(opts.get('extra') or {}))
         ev._event_completed_signal = RecordingEvent(self, name)
         self.names[ev.event_id] = name
         self.events[name] = ev
@@ -793,6 +810,7 @@ def run_scenario(sc: dict, watch_factory=None, keep_world=False):
         res['files'] = dict(fs.files)
         res['io_ops'] = list(fs.ops)
         res['io_fired'] = dict(fs.fired)
+        res['io_texts'] = list(fs.texts)
     # post-run task facts for C16 (before teardown cancels everything)
     if 'cancelled_runloops' in w.final:
         w.final['cancelled_runloops'] = [(bn, t.done()) for bn, t in w.final['cancelled_runloops']]
